@@ -11,6 +11,7 @@ import (
 	"fmt"
 	"io"
 	"math/rand"
+	"strings"
 	"testing"
 	"time"
 )
@@ -26,6 +27,7 @@ type c30Op struct {
 	Data   []byte     `json:"d,omitempty"`
 	Chunks []c30Chunk `json:"cs,omitempty"`
 	PKeys  [][]byte   `json:"pkeys,omitempty"`
+	ZOn    bool       `json:"zon"` // EnableWriteCompression flag in force for this operation
 	Z      [][]byte   `json:"-"` // chunks the flate.Writer hands to its destination (compressed data messages)
 	ZN     int        `json:"zchunks,omitempty"`
 	Err    int        `json:"err"`
@@ -144,7 +146,7 @@ func c30GenOps(r *rand.Rand, server bool, wbs int) []c30Op {
 				if k > 1 && len(data) > 0 {
 					cut = r.Intn(len(data) + 1)
 				}
-				cs = append(cs, c30Chunk{Kind: []string{"write", "write", "string", "readfrom"}[r.Intn(4)], Data: data[:cut]})
+				cs = append(cs, c30Chunk{Kind: []string{"write", "write", "string", "readfrom", "readfrom-eof"}[r.Intn(5)], Data: data[:cut]})
 				data = data[cut:]
 				if len(data) == 0 {
 					break
@@ -216,6 +218,8 @@ func c30Exec(c *Conn, op *c30Op) {
 				_, err = w.Write(ch.Data)
 			case "string":
 				_, err = io.WriteString(w, string(ch.Data))
+			case "readfrom-eof":
+				_, err = w.(io.ReaderFrom).ReadFrom(&c30EOFReader{data: append([]byte{}, ch.Data...), chunk: 1 + len(ch.Data)/(1+len(ch.Data)%3)})
 			default:
 				_, err = w.(io.ReaderFrom).ReadFrom(bytes.NewReader(ch.Data))
 			}
@@ -231,6 +235,31 @@ func c30Exec(c *Conn, op *c30Op) {
 	if err != nil {
 		op.ErrStr = err.Error()
 	}
+}
+
+// c30EOFReader hands out its data in chunks and returns io.EOF together with the last one.
+type c30EOFReader struct {
+	data  []byte
+	chunk int
+}
+
+func (r *c30EOFReader) Read(p []byte) (int, error) {
+	if len(r.data) == 0 {
+		return 0, io.EOF
+	}
+	n := r.chunk
+	if n > len(r.data) {
+		n = len(r.data)
+	}
+	if n > len(p) {
+		n = len(p)
+	}
+	copy(p, r.data[:n])
+	r.data = r.data[n:]
+	if len(r.data) == 0 {
+		return n, io.EOF
+	}
+	return n, nil
 }
 
 type c30Rec struct{ chunks *[][]byte }
@@ -293,7 +322,7 @@ func c30OpCoq(op c30Op) string {
 	}
 	cs := make([]string, len(op.Chunks))
 	for i, ch := range op.Chunks {
-		ctor := map[string]string{"write": "CWrite", "string": "CString", "readfrom": "CReadFrom"}[ch.Kind]
+		ctor := map[string]string{"write": "CWrite", "string": "CString", "readfrom": "CReadFrom", "readfrom-eof": "CReadFromE"}[ch.Kind]
 		cs[i] = vApp(ctor, c29Term(ch.Data))
 	}
 	return vApp("OpStream", vN(uint64(op.Typ)), vList(cs))
@@ -316,6 +345,8 @@ func TestVerifC30(t *testing.T) {
 		{false, 2, []c30Op{{Kind: "message", Typ: 2, Data: hello}}, "client-buf2"},
 		{true, 16, []c30Op{{Kind: "stream", Typ: 2, Chunks: []c30Chunk{{Kind: "readfrom", Data: bytes.Repeat([]byte("r"), 16)}}}}, "readfrom-exact-buffer"},
 		{true, 16, []c30Op{{Kind: "stream", Typ: 2, Chunks: []c30Chunk{{Kind: "write", Data: []byte("ab")}, {Kind: "write", Data: bytes.Repeat([]byte("L"), 61)}}}}, "bypass-with-buffered"},
+		{true, 16, []c30Op{{Kind: "stream", Typ: 2, Chunks: []c30Chunk{{Kind: "readfrom-eof", Data: bytes.Repeat([]byte("e"), 16)}}}}, "readfrom-eof-exact-buffer"},
+		{false, 200, []c30Op{{Kind: "stream", Typ: 1, Chunks: []c30Chunk{{Kind: "readfrom-eof", Data: []byte("data and EOF in one Read")}}}}, "readfrom-eof-client"},
 		{true, 4096, []c30Op{{Kind: "message", Typ: 2, Data: bytes.Repeat([]byte("m"), 65536)}}, "server-64k"},
 		{false, 4096, []c30Op{{Kind: "message", Typ: 2, Data: bytes.Repeat([]byte("m"), 65536)}}, "client-64k"},
 		{true, 4096, []c30Op{{Kind: "stream", Typ: 2, Chunks: []c30Chunk{{Kind: "write", Data: bytes.Repeat([]byte("b"), 65535)}}}}, "server-64k-bypass"},
@@ -347,13 +378,25 @@ func TestVerifC30(t *testing.T) {
 				compress = true
 				level = []int{-2, 1, 6, 9}[r.Intn(4)]
 				class = "compressed"
+				// c.EnableWriteCompression toggled between messages (centrifuge does this per message
+				// through CompressionMinSize): compressed and plain messages on one connection
+				zon := r.Intn(4) > 0
 				for k := range ops {
+					if r.Intn(3) == 0 {
+						zon = !zon
+					}
+					ops[k].ZOn = zon
 					for j := range ops[k].Chunks {
-						if ops[k].Chunks[j].Kind == "readfrom" { // flateWriteWrapper is no io.ReaderFrom
+						if zon && strings.HasPrefix(ops[k].Chunks[j].Kind, "readfrom") { // flateWriteWrapper is no io.ReaderFrom
 							ops[k].Chunks[j].Kind = "write"
 						}
 					}
 				}
+			}
+		}
+		if !compress {
+			for k := range ops {
+				ops[k].ZOn = true
 			}
 		}
 		pc := &c29Conn{}
@@ -363,7 +406,7 @@ func TestVerifC30(t *testing.T) {
 			c.newDecompressionReader = decompressNoContextTakeover
 			_ = c.SetCompressionLevel(level)
 			for k := range ops {
-				if ops[k].Typ == 1 || ops[k].Typ == 2 {
+				if (ops[k].Typ == 1 || ops[k].Typ == 2) && ops[k].ZOn {
 					if ops[k].Kind == "message" || ops[k].Kind == "stream" || ops[k].Kind == "prepared" {
 						_, writes := c30OpData(ops[k])
 						ops[k].Z = c30Deflate(level, writes)
@@ -375,6 +418,9 @@ func TestVerifC30(t *testing.T) {
 		start := make([]int, len(ops))
 		for k := range ops {
 			start[k] = pc.out.Len()
+			if compress {
+				c.EnableWriteCompression(ops[k].ZOn)
+			}
 			c30Exec(c, &ops[k])
 			if ops[k].Kind == "prepared" && !server {
 				ks, _ := c30Keys(pc.out.Bytes()[start[k]:])
@@ -414,7 +460,7 @@ func TestVerifC30(t *testing.T) {
 		et := make([]string, len(ops))
 		nmsg, nerr := 0, 0
 		for k, op := range ops {
-			ot[k] = c30OpCoq(op)
+			ot[k] = vPair(vBool(op.ZOn), c30OpCoq(op))
 			et[k] = vN(uint64(op.Err))
 			if op.Err == 0 {
 				nmsg++
